@@ -2,6 +2,8 @@
 
 from __future__ import annotations
 
+import itertools
+
 from ..e1 import Template
 from ..kernel import BOOL, INT, REAL
 from .common import rotated
@@ -150,6 +152,34 @@ def templates(cfg):
         schema, fn, tags = E[nm]
         prog2 = lambda p, t, fn=fn: t >> p.mutate(y=fn(p, t)) >> p.filter(p.C.y.is_not_null()) >> p.mutate(z=p.C.y == p.C.y)  # noqa: E731
         out.append(Template(f"c03.chain.{nm}", schema, prog2, props=("C03",), tags=tags, nmax=2))
+    if cfg.tier != "quick":
+        # thorough: every binary operator nested in every other (one level), with a literal operand
+        # in either position, on nullable int / bool columns
+        ar = {
+            "add": lambda x, y: x + y, "sub": lambda x, y: x - y, "mul": lambda x, y: x * y,
+            "fdiv": lambda x, y: x // y, "mod": lambda x, y: x % y,
+        }  # fmt: skip
+        cm = {"eq": lambda x, y: x == y, "ne": lambda x, y: x != y, "lt": lambda x, y: x < y, "ge": lambda x, y: x >= y}
+        bo = {"and": lambda x, y: x & y, "or": lambda x, y: x | y, "xor": lambda x, y: x ^ y}
+        for (n1, f1), (n2, f2) in itertools.product(ar.items(), ar.items()):
+            nl = ("nonlinear",)
+            out.append(Template(f"c03.nest.{n1}.{n2}.l", S_I, lambda p, t, f1=f1, f2=f2: t >> p.mutate(y=f1(f2(t.a, t.b), 3)), props=("C03",), tags=nl, nmax=2, int_bound=12))
+            out.append(Template(f"c03.nest.{n1}.{n2}.r", S_I, lambda p, t, f1=f1, f2=f2: t >> p.mutate(y=f1(-2, f2(t.b, t.a))), props=("C03",), tags=nl, nmax=2, int_bound=12))
+        for (n1, f1), (n2, f2) in itertools.product(cm.items(), ar.items()):
+            out.append(Template(f"c03.nest.{n1}.{n2}", S_I, lambda p, t, f1=f1, f2=f2: t >> p.mutate(y=f1(f2(t.a, t.b), t.a)), props=("C03",), tags=("nonlinear",), nmax=2, int_bound=12))
+        for (n1, f1), (n2, f2) in itertools.product(bo.items(), bo.items()):
+            out.append(Template(f"c03.nest.{n1}.{n2}", S_I, lambda p, t, f1=f1, f2=f2: t >> p.mutate(y=f1(f2(t.p, t.q), t.a > 0)), props=("C03",), nmax=2))
+            out.append(Template(f"c03.nest.not.{n1}.{n2}", S_I, lambda p, t, f1=f1, f2=f2: t >> p.mutate(y=~f1(~f2(t.p, t.a.is_null()), t.q)), props=("C03",), nmax=2))
+        for (n1, f1), (n2, f2) in itertools.product(bo.items(), cm.items()):
+            out.append(Template(f"c03.nest.{n1}.{n2}", S_I, lambda p, t, f1=f1, f2=f2: t >> p.filter(f1(f2(t.a, t.b), t.p)), props=("C03",), nmax=2))
+        fns = {
+            "fill_null": lambda p, x: x.fill_null(0), "abs": lambda p, x: x.abs(), "neg": lambda p, x: -x,
+            "clip": lambda p, x: x.clip(-1, 1), "is_in": lambda p, x: x.is_in(0, 1), "is_null": lambda p, x: x.is_null(),
+            "hmax": lambda p, x: p.max(x, 0), "coalesce": lambda p, x: p.coalesce(x, -1), "map": lambda p, x: x.map({0: 5}),
+            "when": lambda p, x: p.when(x > 0).then(x).otherwise(0),
+        }  # fmt: skip
+        for (n1, f1), (n2, f2) in itertools.product(fns.items(), ar.items()):
+            out.append(Template(f"c03.nestfn.{n1}.{n2}", S_I, lambda p, t, f1=f1, f2=f2: t >> p.mutate(y=f1(p, f2(t.a, t.b))), props=("C03",), tags=("nonlinear",), nmax=2, int_bound=12))
     # expression objects that are built in steps and reused (a partial when/then chain
     # extended later, one when-clause with two thens, one expression in two columns)
     def reuse_when(p, t):
